@@ -339,8 +339,11 @@ impl WalStore for TraceWalStore {
             )));
         }
         // like File::create: an existing file is truncated
-        if g.files.insert(name.to_string(), FileSt::default()).is_some() {
-            g.replaced.push(name.to_string());
+        // replacing an EMPTY file loses nothing; replacing one that holds bytes is recorded
+        if let Some(old) = g.files.insert(name.to_string(), FileSt::default()) {
+            if !old.data.is_empty() {
+                g.replaced.push(name.to_string());
+            }
         }
         rec.ok = true;
         g.log.push(rec);
